@@ -179,6 +179,18 @@ CLAIMED["C13"] = (
     "Only accepted documents are executed; the mutation catalogue decides which validation holes are reachable.",
     "DESIGN.md 3/C13",
 )
+CLAIMED["C14"] = (
+    "differential against a literal, memo-free transcription of FieldsInSetCanMerge/SameResponseShape (R6) "
+    "over conflict-seeking generated documents (forced response keys, freely reused fragments, an "
+    "exclusive/non-exclusive stratum, argument key permutations, fragment cycles), parsed with and without "
+    "locations",
+    "The overlapping-fields rule reports at least one conflict exactly when the reference algorithm finds a "
+    "non-mergeable pair in some selection set of some operation or fragment definition; on cyclic fragment "
+    "graphs the rule must terminate without raising.",
+    "R6 is my reading of the specification; documents with unknown fields, @stream or fragment arguments are "
+    "not compared.",
+    "DESIGN.md 3/C14",
+)
 PENDING_REASON = (
     "check under construction in this session (DESIGN.md section 3 has its design); it is not claimed "
     "until it has run quietly on the unchanged tree at several seeds"
